@@ -10,6 +10,7 @@ model of the documented precedence rules (Appendix D of DESIGN.md).
 
 from __future__ import annotations
 
+import random
 import os
 import sys
 import warnings
@@ -141,6 +142,12 @@ def generate(rng, tier, index):
             if fn.startswith("division_connected"):
                 flag = None  # the public function has no per-call override
             ops.append({"op": "graph", "fn": fn, "flag": flag, "same_solver": rng.random() < 0.3})
+    # fault injection: one call in twelve meets a recipient that dies during the call (external
+    # solver process / extension module / given backend class); the history goes on afterwards
+    r2 = random.Random(rng.random())
+    for op in ops:
+        if op["op"] == "call" and r2.random() < 0.085:
+            op["fail"] = True
     return {"prop": ID, "env": env, "installed": installed, "ops": ops}
 
 
@@ -571,17 +578,26 @@ def _do_call(res, world, cspuz, n_op, op, cfg, installed, z3_cached):
     elif barg is not None:
         kw["backend"] = barg
     exc = None
+    f0 = world.peer.faults_fired
+    if op.get("fail"):
+        world.peer.fault_in = 1
+        ctx.arm_fault(1)
     try:
         r = getattr(s, kind)(**kw)
     except Exception as e:  # classified below
         exc = e
         r = None
+    finally:
+        world.peer.fault_in = None
+    fired = world.peer.faults_fired > f0 or ctx.faults_fired > 0
     recipients = sorted({e[0] for e in rec})
     res.log("op", n_op, "call", kind, barg, cfg["default_backend"], recipients, type(exc).__name__ if exc else r)
     tag = f"op#{n_op} {kind}(backend={barg!r}) with config.default_backend={cfg['default_backend']!r}"
     if barg == "<class>":
         res.hit("call:class")
-        if exc is not None:
+        if fired:
+            res.hit("fault:recipient_died_during_call")
+        if exc is not None and not fired:
             res.violate("C20/unexpected-exception", f"{tag} raised {type(exc).__name__}: {str(exc)[:100]}")
         elif ctx.instances < 1 or recipients:
             res.violate("C20/wrong-recipient", f"{tag}: the given backend class was instantiated {ctx.instances} times and external entry points {recipients} were used")
@@ -599,6 +615,17 @@ def _do_call(res, world, cspuz, n_op, op, cfg, installed, z3_cached):
     res.hit("recipient:" + b)
     mod = MOD_OF.get(b)
     available = mod is None or mod in installed or (b == "z3" and z3_cached)
+    if fired:
+        # the injected death happened inside some recipient: it must have been the configured one
+        res.hit("fault:recipient_died_during_call")
+        if recipients != [want]:
+            res.violate("C20/wrong-recipient", f"{tag}: expected the solve to reach {want}, recorder shows {recipients or 'nobody'} (the recipient died during the call)")
+        elif want == "subprocess":
+            argv0 = [e[1][0] for e in rec]
+            expect0 = cfg["backend_path"] or "sugar"
+            if any(a != expect0 for a in argv0):
+                res.violate("C20/wrong-argv", f"{tag}: subprocess argv[0] {argv0} but config.backend_path is {cfg['backend_path']!r} (expected {expect0!r})")
+        return z3_cached
     if exc is not None:
         if isinstance(exc, ImportError) and not available:
             res.hit("call:module_missing_importerror")
